@@ -85,17 +85,30 @@ def binpath(variant):
     return os.path.join(SIM, "target", REPO_TAG, variant, "release", "lexsim-" + variant.replace("_", "-"))
 
 
-def build(variants):
-    """Build (or refresh) the given variants from the repository's current working tree, in parallel."""
+UNBUILDABLE = {}
+
+
+def build(variants, required=False):
+    """Build (or refresh) the given variants from the repository's current working tree, in parallel.
+    A feature set that does not compile from this tree cannot be judged: it is skipped (and reported) unless
+    every requested variant fails or `required` is set."""
     env = dict(os.environ, VERIF_REPO=REPO, CARGO_NET_OFFLINE="true")
+    variants = [v for v in variants if v not in UNBUILDABLE]
     def one(v):
         p = subprocess.run([os.path.join(SIM, "build_variant.sh"), v], env=env, capture_output=True, text=True)
         return v, p
-    with ThreadPoolExecutor(max(1, min(len(variants), 6))) as ex:
+    failed = []
+    with ThreadPoolExecutor(max(1, min(len(variants), 7))) as ex:
         for v, p in ex.map(one, variants):
             if p.returncode != 0 or not os.path.exists(binpath(v)):
-                # a tree that does not compile is not something a check can judge
-                die("building variant %s failed:\n%s" % (v, (p.stderr or p.stdout)[-3000:]))
+                failed.append(v)
+                UNBUILDABLE[v] = (p.stderr or p.stdout)[-1500:]
+    if failed and (required or len(failed) == len(variants)):
+        die("building variant(s) %s failed:\n%s" % (", ".join(failed), UNBUILDABLE[failed[0]]))
+    for v in failed:
+        print("NOTE: feature set '%s' does not build from this tree; it is skipped by this run:\n      %s" % (
+            v, UNBUILDABLE[v].strip().splitlines()[-1] if UNBUILDABLE[v].strip() else ""))
+    return failed
 
 
 def miri_env(variant, miri_seed, rate):
@@ -287,7 +300,15 @@ def check(prop, tier):
     print("SEED %d property=%s tier=%s repo=%s" % (base, prop, tier, REPO))
 
     variants = sorted({v for v, _ in plan.get("gated", [])} | set((plan.get("cross") or ([], 0))[0]))
-    build(variants)
+    skipped = build(variants)
+    if skipped:
+        plan = dict(plan)
+        plan["gated"] = [(v, n) for v, n in plan.get("gated", []) if v not in skipped]
+        if plan.get("cross"):
+            cv = [v for v in plan["cross"][0] if v not in skipped]
+            plan["cross"] = (cv, plan["cross"][1]) if len(cv) >= 2 else None
+        if plan.get("miri") and plan["miri"][0] in skipped:
+            plan["miri"] = None
 
     stats = dict(runs=0, ops={}, faults={}, interleavings=set(), nontrivial=set(), events=0, thread_switches=0,
                  first_uses=0, known_hits={}, other_props={}, per_variant={})
@@ -416,7 +437,7 @@ def check(prop, tier):
     miri_stats = None
     if violation is None and plan.get("miri"):
         variant, workloads, scheds = plan["miri"]
-        build([variant])
+        build([variant], required=True)
         miri_build(variant)
         miri_stats = dict(variant=variant, workloads=workloads, schedules_per_workload=scheds, runs=0, ops=0,
                           completion_orders=set(), contended_first_uses=0, ub_reports=0, wall_s=0.0,
@@ -480,13 +501,15 @@ def check(prop, tier):
         if f["property"] != prop:
             continue
         pv = f["probe"]["variant"]
-        build([pv])
+        if pv in UNBUILDABLE or (pv not in variants and build([pv], required=False)) or pv in UNBUILDABLE:
+            continue
         tp = os.path.join(ROOT, f["probe"]["trace"])
         j = run_replay_gated(pv, tp)
         still = any(v["prop"] == prop and v.get("tag", "") == f["tag"] for v in j["violations"])
         if f.get("probe", {}).get("cross"):
             other = f["probe"]["cross"]
-            build([other])
+            if build([other], required=False):
+                continue
             a = run_gated_trace_records(pv, tp)
             b = run_gated_trace_records(other, tp)
             still = a != b
@@ -604,6 +627,7 @@ def finish(prop, tier, base, stats, samples, miri_stats, cross_stats, t_start, n
         first_uses=stats["first_uses"],
         distinct_interleavings=len(stats["interleavings"]),
         per_variant=stats["per_variant"],
+        feature_sets_that_did_not_build=sorted(UNBUILDABLE),
         runs_per_hour=int(stats["runs"] / wall * 3600) if wall > 0 else 0,
         simulated_time="not applicable: the library reads no clock; progress is counted in API calls",
         engine_M=miri_stats,
